@@ -76,7 +76,9 @@ def hostile_requests(rng, model, full: bool) -> typing.List[typing.Tuple[str, by
                  b"HEAD /PYGOPHERD-HTTPPROTO-ICONS/text.gif HTTP/1.0", b"GET /PYGOPHERD-HTTPPROTO-ICONS/ HTTP/1.0",
                  b"POST / HTTP/1.0", b"GET /umn?a?b?c HTTP/1.0", b"GET /% HTTP/1.0", b"GET /%ff%fe HTTP/1.1",
                  b"GET /wap HTTP/1.0", b"GET /wap/ HTTP/1.0", b"GET /wap/nope HTTP/1.0", b"GET /wapx HTTP/1.0",
-                 b"GET /umn/ HTTP/1.0", b"GET umn HTTP/1.0", b"GET http://h/umn HTTP/1.0", b"GET /\t HTTP/1.0"):
+                 b"GET /umn/ HTTP/1.0", b"GET umn HTTP/1.0", b"GET http://h/umn HTTP/1.0", b"GET /\t HTTP/1.0",
+                 b"GET  /umn HTTP/1.0", b"GET /umn  HTTP/1.0", b"GET\t/umn\tHTTP/1.0", b" GET /umn HTTP/1.0", b"GET /umn HTTP/1.0 ",
+                 b"GET /umn\tHTTP/1.0", b"HEAD  /umn/one.txt  HTTP/1.0"):
         for hdrs in (b"\r\n\r\n", b"\r\nAccept: text/html, text/vnd.wap.wml\r\nX-Wap-Profile: x\r\n\r\n",
                      b"\r\nNoColonLine\r\n: empty\r\nA:\r\n\r\n", b"\r\n"):
             for tls in (False, True):
@@ -85,7 +87,11 @@ def hostile_requests(rng, model, full: bool) -> typing.List[typing.Tuple[str, by
     for line, body in ((b"h /a%0ab 0", b""), (b"h /a%0d%0a2 text/plain 0", b""), (b"h / 10", b"abc"),
                        (b"h / 3", b"abcdef"), (b"h  0", b""), (b"h / -1", b""), (b"h / 00", b""),
                        (b"h /% 0", b""), (b"h /umn/one.txt 3", b"\xff\xfe\x00"), (b"h umn 0", b""),
-                       (b"h /umn 99999999999999999999", b""), (b"h /umn 1", b"\n")):
+                       (b"h /umn 99999999999999999999", b""), (b"h /umn 1", b"\n"),
+                       # separators that are not exactly one blank: detection and parsing must agree
+                       (b"h  /umn 0", b""), (b"h\t/umn 0", b""), (b"h /umn  0", b""), (b"h /umn\t0", b""), (b" h /umn 0", b""),
+                       (b"h /umn 0 ", b""), (b"h  /umn/one.txt  0", b""), (b"h\t/umn/one.txt\t0", b""), (b"h \t /umn 0", b""),
+                       (b"h /umn 0\t", b""), (b"h /umn\x0b0", b""), (b"h\x0c/umn 0", b""), (b"h /umn 0\r", b"")):
         add("spartan-malformed", line + b"\r\n" + body, False)
         add("spartan-tls", line + b"\r\n" + body, True)
     for _ in range(120):
